@@ -52,7 +52,10 @@ def exc_signature(e: BaseException) -> dict:
         # everything after the document has been read and its references resolved
         "in_writer": any("/writers/" in fr.filename.replace(os.sep, "/")
                          or (fr.name in ("write_doc", "write_doc_serialized", "handle_page", "finish", "get_doc_context")
-                             and "/sphinx/builders/" in fr.filename.replace(os.sep, "/")) for fr in tb),
+                             and "/sphinx/builders/" in fr.filename.replace(os.sep, "/"))
+                         # ... or in Sphinx's toctree adapter (it fails, for rST sources just the same, on a
+                         # download link inside a section title that a toctree lists)
+                         or "/sphinx/environment/adapters/" in fr.filename.replace(os.sep, "/") for fr in tb),
         "type": type(e).__name__,
         "message": str(e)[:300],
         "myst_frame": f"{os.path.basename(inner.filename)}:{inner.name}" if inner else None,
